@@ -89,4 +89,42 @@ pub(crate) fn t_vt_query(c: TCfg) {
     forget(terminal);
 }
 
+/// V-glue: Vt::feed_str(s) for a one-character string (any ASCII character), from any parser
+/// state: the parser ends exactly where Parser::feed leaves a twin parser - so a sequence cut
+/// between two calls is continued (C12: by induction over the calls, any chunking drives the parser
+/// through the same states) - and Terminal::execute is reached exactly when the parser produced a
+/// function (recorder stub).  What else ends a call (changes + gc) is decided by t_changes / t_gc.
+pub(crate) fn t_vt_glue(cols: usize, rows: usize) {
+    let st = crate::parser::kverif::any_state();
+    let p1 = any_parser(st, 0);
+    let mut p2 = any_parser(st, 0);
+    crate::parser::kverif::copy_parser(&p1, &mut p2);
+    let mut terminal = Terminal::new((cols, rows), Some(1));
+    std::mem::forget(terminal.changes());
+    let mut vt = Vt { parser: p1, terminal };
+    let b0 = any_u8();
+    assume(b0 < 0x80);
+    let bytes = [b0];
+    let s = unsafe { std::str::from_utf8_unchecked(&bytes) };
+    unsafe {
+        EXEC_CALLS = 0;
+    }
+    {
+        let ch = vt.feed_str(s);
+        std::mem::forget(ch);
+    }
+    let o0 = p2.feed(b0 as char);
+    let want_calls = o0.is_some() as u32;
+    std::mem::forget(o0);
+    assert!(crate::parser::kverif::same_parser(&vt.parser, &p2), "[C12] a feed_str call leaves the parser exactly where feeding its characters one at a time leaves it (sequences may be cut anywhere)");
+    #[cfg(kani)]
+    assert!(unsafe { EXEC_CALLS } == want_calls, "[C12][C20] the terminal is reached exactly once per function the parser produced");
+    let _ = want_calls;
+    kv_cover!(vt.parser.state == State::OscString, "the call ends inside an OSC string");
+    kv_cover!(vt.parser.state == State::CsiParam, "the call ends inside CSI parameters");
+    kv_end!();
+    let Vt { parser: _, terminal } = vt;
+    forget(terminal);
+}
+
 include!("vt_gen.rs");
